@@ -16,7 +16,8 @@ def run(tier):
                 "rewrites of Rewrite.tla at seed-chosen nodes (definite<->indefinite per container/string, chunking, "
                 "non-minimal head widths, rotation of map members, unknown positive/negative keys carrying tagged / float / "
                 "nested / indefinite values) and serialised again; TLC checks that the variant is a valid file with the same "
-                "denotation and that the library reader returns exactly the same dump for both; distinct = variants")
+                "denotation and that the library reader returns exactly the same dump for both; every prefix of some variants is "
+                "read (and fails) and right after it the whole variant again, which must read as before; distinct = variants")
     chk.assumptions = ["TLC + CommunityModules", "Cbor.tla / CdnsFormat.tla / Rewrite.tla as the reading of RFC 8949 / 8618",
                        "driver reader dump (harness/records.h)"]
     rng = random.Random(chk.seed * 37 + 8)
@@ -44,6 +45,37 @@ def run(tier):
               "rd_orig": dumps[f.name]["rd"], "rd_var": dumps[vp.name]["rd"]}
         hs[k % nsh].write(json.dumps(ev) + "\n")
         k += 1
+    # a reader is not disturbed by what an EARLIER reader on the same thread met: every prefix of a few small variants
+    # (a read that fails somewhere inside - also inside the value of an unknown member) is read, and right after it the
+    # complete variant once more: it must give exactly what it gave the first time (digests compared by TLC)
+    import hashlib
+    import os
+    adir = work / "again"
+    adir.mkdir()
+    small = sorted((vp for vp in vpaths if vp.name in dumps and vp.stat().st_size <= 2500), key=lambda q: q.stat().st_size)
+    small = small[len(small) // 2:][: (3 if tier == "quick" else 24)]          # the larger of the small ones: more members
+    seq = []
+    for vp in small:
+        data = vp.read_bytes()
+        for c in range(1, len(data), 1 if tier == "thorough" or len(data) < 1200 else 2):
+            cf = adir / f"{vp.stem}_c{c}.cdns"
+            cf.write_bytes(data[:c])
+            af = adir / f"{vp.stem}_a{c}.cdns"
+            os.link(vp, af)
+            seq += [cf, af]
+    dumps2, crashes2 = reader_dumps(work, seq, label="c08again", chunk=2)
+    crashes += crashes2
+    dig = lambda d: hashlib.sha256(json.dumps(d, sort_keys=True).encode()).hexdigest()[:24]
+    nagain = 0
+    for vp in small:
+        first = dig(dumps[vp.name]["rd"])
+        for af in (q for q in seq if q.name.startswith(vp.stem + "_a")):
+            if af.name in dumps2:
+                hs[k % nsh].write(json.dumps({"e": "A", "file": vp.name, "cut": int(af.stem.rsplit("_a", 1)[1]), "first": first,
+                                              "again": dig(dumps2[af.name]["rd"])}) + "\n")
+                k += 1
+                nagain += 1
+    chk.extra["reads_repeated_after_a_failed_read"] = nagain
     for h in hs:
         h.write('{"e":"END"}\n')
         h.close()
